@@ -963,7 +963,13 @@ ssize_t qlisttbl_load(qlisttbl_t *tbl, const char *filepath, char sepchar,
 
         // parse
         char *data = strdup(buf);
-        char *name  = _q_makeword(data, sepchar);
+        char *name  = (data != NULL) ? _q_makeword(data, sepchar) : NULL;
+        if (name == NULL) {
+            free(data);
+            errno = ENOMEM;
+            cnt = -1;
+            break;
+        }
         qstrtrim(data);
         qstrtrim(name);
         if (decode == true) qurl_decode(data);
